@@ -120,6 +120,24 @@ def install(events, spec):
 
     ex.TestCaseExecutor.execute = execute
 
+    # batches run by the subprocess executor (assertion filtering, mutation analysis): [draw index, -number of tests,
+    # number of timed-out results, "subprocess", hash of the timeout pattern, 0]; their timeouts are wall-clock as well
+    import pynguin.testcase.subprocess_executor as sub
+
+    orig_multiple = sub.SubprocessTestCaseExecutor.execute_multiple
+
+    def execute_multiple(self, test_cases):
+        at = len(draws)
+        tests = tuple(test_cases)
+        results = tuple(orig_multiple(self, tests))
+        state["subprocess_batches"] = state.get("subprocess_batches", 0) + 1
+        if len(execs) < MAX_DRAWS:
+            pattern = "".join("T" if (r is not None and r.timeout) else "." for r in results)
+            execs.append([at, -len(tests), pattern.count("T"), "subprocess", hashlib.sha1(pattern.encode()).hexdigest()[:10], 0])
+        return results
+
+    sub.SubprocessTestCaseExecutor.execute_multiple = execute_multiple
+
     for name in [n for n in os.environ.get("VERIF_FIX", "").split(",") if n]:
         FIXES[name]()
         events.append({"ev": "fix-applied", "name": name})
@@ -135,6 +153,7 @@ def finish(events, spec, out):
     events.append({"ev": "monitor-calls", "monitor": "rngtap", "calls": st["calls"], "seed_calls": st["seed_calls"],
                    "still_installed": randomness.RNG is _STATE["tap"], "truncated": st["truncated"]})
     events[-1]["exec_calls"] = st.get("exec_calls", 0)
+    events[-1]["subprocess_batches"] = st.get("subprocess_batches", 0)
     events.append({"ev": "rngtap", "stacks": _STATE["stacks"], "draws": _STATE["draws"], "bits": _STATE["bits"], "execs": _STATE["execs"]})
 
 
